@@ -245,8 +245,10 @@ def run_carry(facts, rep, fn_filter):
             if not written:
                 continue
             findings = []
+            lhs_base_ids = {id(y) for x in walk(L["body"]) if x.get("k") in ("Assign", "AssignOp") and x["lhs"].get("k") == "Index"
+                            for y in walk(x["lhs"]["e"])}
 
-            def transfer(nd, st, written=written, findings=findings):
+            def transfer(nd, st, written=written, findings=findings, lhs_base_ids=lhs_base_ids):
                 k = nd.get("k")
                 if k == "Assign":
                     lo = local_of(nd["lhs"])
@@ -254,6 +256,8 @@ def run_carry(facts, rep, fn_filter):
                         return st - frozenset([lo[0]])
                     return st
                 if k in ("Call", "MCall"):
+                    if id(nd) in lhs_base_ids:
+                        return st           # accessor chain on the left of an element store (`x.data_mut()[i] = ..`): not a read
                     f = callee(nd)
                     name = f["name"] if f else nd.get("name", "")
                     args = ([nd["recv"]] if k == "MCall" else []) + nd.get("args", [])
